@@ -54,8 +54,12 @@ class Ctx:
         self.floors: dict[str, tuple] = {}
         self.functions_analysed: set[str] = set()
         self.extra: dict = {}
+        self._path_opaque = None      # set by ctx.path(asg): the abstract path under judgement went through an unevaluated condition
+        self.deferred: list[str] = []  # failing obligations on such paths: nothing is established there (-> exit 2 unless a real finding exists)
         self.evidence_dir = evidence_dir or os.path.join(VERIF, "evidence")
         self.quiet = quiet
+        from . import absint as _absint
+        _absint.ON_PATH = self.path
 
     # ---- bookkeeping -------------------------------------------------
     def mod(self, rel):
@@ -85,8 +89,18 @@ class Ctx:
         self.findings.append(fd)
         return fd
 
+    def path(self, asg):
+        """declare the abstract path the following obligations are judged on (asg as returned by absint.explore); None = no path.
+        A path whose assignment contains a choice on an unevaluated condition (key ('c', ...)) may be infeasible: a failing obligation
+        on it is not a finding but an undecided instance."""
+        self._path_opaque = None if asg is None else next((k for k in asg if isinstance(k, tuple) and k and k[0] == "c"), None)
+
     def check(self, rule, instance, ok, func, construct, message, node=None, witness=None, detail="", file=None):
         """obligation + finding when it fails."""
+        if not ok and self._path_opaque is not None:
+            self.deferred.append("%s [%s]: fails only on a path through the unevaluated condition `%s` (feasibility not established): %s" % (
+                rule, str(instance)[:80], str(self._path_opaque[1])[:100], message[:300]))
+            return ok
         self.ob(rule, instance, ok, detail or ("" if ok else message))
         if not ok:
             self.finding(rule, func, construct, message, node=node, witness=witness, file=file)
@@ -146,6 +160,8 @@ def _match_known(f: Finding, known):
 
 def finish(ctx: Ctx, error: str | None = None):
     """print result lines, write replay + evidence, return exit code."""
+    if error is None and ctx.deferred:
+        error = ctx.deferred[0] + (" (and %d more undecided instances)" % (len(ctx.deferred) - 1) if len(ctx.deferred) > 1 else "")
     known = load_known()
     new, listed = [], []
     for f in ctx.findings:
